@@ -267,6 +267,8 @@ func (d c15) Execute(c *core.Case) (res *core.Result) {
 			ref := refsAll[2+r.Intn(2)] // disjoint from A's refs
 			if c.Flags["overlap"] && r.Chance(0.6) {
 				ref = refsAll[r.Intn(2)]
+			} else if k != 2 && r.Chance(0.1) {
+				ref = "refs/gittuf/policy-staging" // local-only entries of gittuf's own namespaces are entries too
 			}
 			t := newCommit(b, ref, fmt.Sprintf("local-%d", i))
 			kind := "reference"
